@@ -4,7 +4,8 @@
      plugin/output/file           out
      plugin/output/http           out / sendSplit / JSONEncoder / RawEncoder (REPAIRED: missing field keeps the buffer)
      plugin/output/kafka          out (records = slices of one shared buffer)
-     plugin/output/splunk         out (no copy_fields)
+     plugin/output/splunk         out incl. copy_fields (the envelope of one event as a function of that event and the
+                                  configuration; the copied values are oracle trees, objects exploded)
      plugin/output/gelf           out (framing only; formatEvent's rewrite of the event is the [ev_alt] oracle)
      plugin/output/loki           out / send (the envelope; its pieces are encoding/json oracle values)
    plus an executable RFC 8259 recogniser (the byte automaton of encoding/json's scanner).
@@ -196,14 +197,24 @@ Definition lines_tail := split_tail NL.
               the surrounding quotes)                          hypothesis esc_safe
      ev_topic Root.Dig(topic_field).AsString()
      ev_alt   http raw encoder: encoding of the configured field, None if the field is absent;
-              gelf: encoding of the event after formatEvent rewrote it                          *)
+              gelf: encoding of the event after formatEvent rewrote it
+     ev_copy  splunk copy_fields: per configured entry k, Root.Dig(from_k...) — None when the event
+              has no such field, otherwise the value as an [oval] tree: objects exploded into their
+              fields (key, the key's JSON string literal, value), everything else the encoding
+              Node.Encode writes (hypothesis copy_faithful: [oenc] of the tree is that encoding)   *)
+Inductive oval :=
+| OV (raw : bytes)
+| OO (fs : list (bytes * bytes * oval)).
+Definition ofield := (bytes * bytes * oval)%type.
+
 Record ev := mkEv {
   ev_kind : Z;
   enc : bytes;
   ev_raw : list bytes;
   ev_esc : list bytes;
   ev_topic : bytes;
-  ev_alt : option bytes
+  ev_alt : option bytes;
+  ev_copy : list (option oval)
 }.
 
 Definition KIND_PARENT : Z := 2.          (* eventKindChildParent *)
@@ -365,6 +376,75 @@ Definition alt_or_empty (e : ev) : bytes := match ev_alt e with Some b => b | No
 Definition frame_http (raw : bool) (e : ev) : bytes := (if raw then alt_or_empty e else enc e) ++ [NL].
 Definition SPLUNK_PRE : bytes := [123; 34; 101; 118; 101; 110; 116; 34; 58]%N.   (* {"event": *)
 Definition frame_splunk (e : ev) : bytes := SPLUNK_PRE ++ enc e ++ [125]%N.
+
+(* ---- splunk copy_fields: the envelope of ONE event ------------------------------------------
+   out():  root := {} ; root.AddField("event").MutateToNode(event.Root.Node)
+           for every configured entry: v := event.Root.Dig(from...) ; if v == nil { continue }
+                                        pipeline.CreateNestedField(root, to).MutateToNode(v)
+           outBuf = root.Encode(outBuf) ; root.DecodeString("{}")
+   The envelope is a tree of ordered fields; what comes from the event is an oracle tree. *)
+(* Node.Encode of a tree: an object is its fields in order, "key":value, comma separated *)
+Fixpoint oenc (v : oval) : bytes :=
+  match v with
+  | OV r => r
+  | OO fs =>
+      123%N :: (fix go (fs : list ofield) (first : bool) : bytes :=
+                  match fs with
+                  | [] => [125]%N
+                  | (_, esc, x) :: r => (if first then [] else [44]%N) ++ esc ++ 58%N :: oenc x ++ go r false
+                  end) fs true
+  end.
+
+(* AddFieldNoAlloc(name) followed by a mutation of the node it returns: the FIRST field of that
+   name is mutated in place, a missing one is appended (as null) and mutated *)
+Fixpoint upsert (k esc : bytes) (f : option oval -> oval) (fs : list ofield) : list ofield :=
+  match fs with
+  | [] => [(k, esc, f None)]
+  | (k', e', x) :: r =>
+      if bytes_eqb k' k then (k', e', f (Some x)) :: r else (k', e', x) :: upsert k esc f r
+  end.
+
+(* the fields CreateNestedField finds below a node: a node that is not an object is reset to {} *)
+Definition fields_of (o : option oval) : list ofield := match o with Some (OO fs) => fs | _ => [] end.
+
+(* CreateNestedField(root, path).MutateToNode(v) on the fields of an object; a path segment is
+   (key, the key's JSON string literal) *)
+Fixpoint set_path (path : list (bytes * bytes)) (v : oval) (fs : list ofield) : list ofield :=
+  match path with
+  | [] => fs
+  | (k, esc) :: rest =>
+      match rest with
+      | [] => upsert k esc (fun _ => v) fs
+      | _ :: _ => upsert k esc (fun old => OO (set_path rest v (fields_of old))) fs
+      end
+  end.
+
+(* one copy_fields entry: the configured `to` text and cfg.ParseFieldSelector(to) *)
+Record cp_entry := mkCp { cp_to_raw : bytes; cp_to : list (bytes * bytes) }.
+Definition EVENT_KEY : bytes := [101; 118; 101; 110; 116]%N.                 (* event *)
+Definition EVENT_ESC : bytes := [34; 101; 118; 101; 110; 116; 34]%N.         (* "event" *)
+(* Start(): an entry whose `to` is empty, "event", or starts with "event." is logged and dropped *)
+Definition splunk_keep (to : bytes) : bool :=
+  negb (is_nil to || bytes_eqb to EVENT_KEY || has_prefix to (EVENT_KEY ++ [46]%N)).
+
+Fixpoint apply_copies (cfg : list cp_entry) (vals : list (option oval)) (fs : list ofield) : list ofield :=
+  match cfg with
+  | [] => fs
+  | c :: cfg' =>
+      let fs' :=
+        if splunk_keep (cp_to_raw c) then
+          match vals with
+          | Some x :: _ => set_path (cp_to c) x fs
+          | _ => fs
+          end
+        else fs in
+      apply_copies cfg' (tl vals) fs'
+  end.
+
+(* the envelope of one event: a function of THAT event (its encoding and its copied values) and of
+   the configuration only *)
+Definition envelope (cfg : list cp_entry) (e : ev) : bytes :=
+  oenc (OO (apply_copies cfg (ev_copy e) [(EVENT_KEY, EVENT_ESC, OV (enc e))])).
 Definition frame_gelf (e : ev) : bytes := alt_or_empty e ++ [0]%N.
 
 Definition build_frames (frame : ev -> bytes) (batch : list ev) (prev : bytes) : bytes :=
@@ -389,8 +469,8 @@ Definition file_out (batch : list ev) (prev : bytes) (script : list Z) : res att
   let data := build_frames frame_file batch prev in
   Ok (mkAtt [mkReq 0 (len (deliverable batch)) data 0] false 0 data script).
 
-Definition splunk_out (batch : list ev) (prev : bytes) (script : list Z) : res attempt :=
-  let data := build_frames frame_splunk batch prev in
+Definition splunk_out (cfg : list cp_entry) (batch : list ev) (prev : bytes) (script : list Z) : res attempt :=
+  let data := build_frames (envelope cfg) batch prev in
   let '(log, script', st, err) := send_whole script (len (deliverable batch)) data in
   Ok (mkAtt log err (out_ret_splunk st err) data script').
 
@@ -527,16 +607,67 @@ Fixpoint run_batches (out : out_fn) (batches : list (list ev)) (prev : bytes) (s
 Definition opt_bytes_of_sx (s : sx) : option (option bytes) :=
   match s with SZ 0 => Some None | SB b => Some (Some b) | _ => None end.
 
-(* ev = (kind #enc (#raw ...) (#esc ...) #topic alt)   alt = 0 | #bytes *)
+(* oval = #raw | ((#key #key_literal oval) ...) *)
+Fixpoint oval_of_sx (s : sx) : option oval :=
+  match s with
+  | SB r => Some (OV r)
+  | SL l =>
+      (fix go (l : list sx) : option oval :=
+         match l with
+         | [] => Some (OO [])
+         | SL [SB k; SB e; x] :: r =>
+             match oval_of_sx x, go r with
+             | Some v, Some (OO fs) => Some (OO ((k, e, v) :: fs))
+             | _, _ => None
+             end
+         | _ => None
+         end) l
+  | SZ _ => None
+  end.
+(* a copied value: 0 (the event has no such field) | oval *)
+Definition copy_of_sx (s : sx) : option (option oval) :=
+  match s with
+  | SZ 0 => Some None
+  | _ => match oval_of_sx s with Some v => Some (Some v) | None => None end
+  end.
+
+(* ev = (kind #enc (#raw ...) (#esc ...) #topic alt [(copy ...)])   alt = 0 | #bytes *)
 Definition ev_of_sx (s : sx) : option ev :=
   match s with
   | SL [SZ k; SB e; r; x; SB t; a] =>
       match as_list as_B r, as_list as_B x, opt_bytes_of_sx a with
-      | Some r', Some x', Some a' => Some (mkEv k e r' x' t a')
+      | Some r', Some x', Some a' => Some (mkEv k e r' x' t a' [])
       | _, _, _ => None
+      end
+  | SL [SZ k; SB e; r; x; SB t; a; cp] =>
+      match as_list as_B r, as_list as_B x, opt_bytes_of_sx a, as_list copy_of_sx cp with
+      | Some r', Some x', Some a', Some cp' => Some (mkEv k e r' x' t a' cp')
+      | _, _, _, _ => None
       end
   | _ => None
   end.
+
+(* splunk cfg = (entry ...)   entry = (#from #to (#from_segment ...) ((#to_segment #literal) ...));
+   the parsed paths are cfg.ParseFieldSelector's (oracle values); a kept entry whose parsed target is
+   empty or starts at the "event" key is outside the model (Start's check is on the text) *)
+Definition seg_of_sx (s : sx) : option (bytes * bytes) :=
+  match s with SL [SB k; SB e] => Some (k, e) | _ => None end.
+Definition cp_entry_of_sx (s : sx) : option cp_entry :=
+  match s with
+  | SL [SB _; SB to; SL _; segs] =>
+      match as_list seg_of_sx segs with
+      | Some p =>
+          if splunk_keep to then
+            match p with
+            | [] => None
+            | (k, _) :: _ => if bytes_eqb EVENT_KEY k then None else Some (mkCp to p)
+            end
+          else Some (mkCp to p)
+      | None => None
+      end
+  | _ => None
+  end.
+Definition splunk_cfg_of_sx (s : sx) : option (list cp_entry) := as_list cp_entry_of_sx s.
 
 Definition batches_of_sx (s : sx) : option (list (list ev)) := as_list (as_list ev_of_sx) s.
 (* an index value is a field name or "@time" *)
@@ -571,7 +702,7 @@ Definition out_of_case (which : Z) (cfg : sx) : option out_fn :=
       end
   | 3, SL [SB dflt; usef; SZ bs] =>
       match as_bool usef with Some u => Some (kafka_out (mkK dflt u bs)) | None => None end
-  | 4, SL [] => Some splunk_out
+  | 4, _ => match splunk_cfg_of_sx cfg with Some c => Some (splunk_out c) | None => None end
   | 5, SL [] => Some gelf_out
   | 6, SL [SB labels] => Some (loki_out labels)
   | _, _ => None
@@ -580,7 +711,8 @@ Definition out_of_case (which : Z) (cfg : sx) : option out_fn :=
 (* ---- the property's own predicate on what the implementation did ----------------------------
    Per call of out(): every body is well framed for its sink (ES: action line / document pairs
    with every action line one valid JSON document; file, http: complete lines; splunk: a row of
-   {"event":...} objects; gelf: NUL-terminated chunks); the documents in the bodies that were
+   JSON objects, each the envelope of its event — {"event":<the event>} plus the fields copy_fields
+   takes from THAT event; gelf: NUL-terminated chunks); the documents in the bodies that were
    answered with success (kafka: the record values) are, in order and without repetition, documents
    of the batch's deliverable events; when the exchange ended without error they are ALL of them. *)
 Fixpoint is_subseq (xs ys : list bytes) : bool :=
@@ -680,11 +812,7 @@ Definition docs_of_body (which : Z) (cfg : sx) (body : bytes) : option (list byt
       end
   | 1 | 2 => let '(ls, t) := lines_tail body in if is_nil t then Some ls else None
   | 3 => Some [body]
-  | 4 =>
-      match split_docs (JVal, []) [] body with
-      | Some ds => opt_map (strip_frame_fast SPLUNK_PRE [125]%N) ds   (* = strip_frame, in linear time *)
-      | None => None
-      end
+  | 4 => split_docs (JVal, []) [] body       (* the envelopes, whole *)
   | 5 =>
       (* every NUL-terminated chunk is one JSON document *)
       let '(ls, t) := split_tail 0%N body in
@@ -698,6 +826,10 @@ Definition expected_docs (which : Z) (cfg : sx) (batch : list ev) : list bytes :
   | 2, SL [SZ 1; _] => map alt_or_empty (deliverable batch)
   | 5, _ => map alt_or_empty (deliverable batch)
   | 6, _ => map loki_entry (deliverable batch)
+  | 4, _ => match splunk_cfg_of_sx cfg with
+            | Some c => map (envelope c) (deliverable batch)
+            | None => []
+            end
   | _, _ => map enc (deliverable batch)
   end.
 
@@ -760,7 +892,7 @@ Definition foreach_model (case : sx) : option sx :=
   match as_list as_Z case with
   | Some kinds =>
       (* the i-th event is tagged with i (as its one-"byte" encoding) *)
-      let evs := map (fun ik => mkEv (snd ik) [N.of_nat (fst ik)] [] [] [] None)
+      let evs := map (fun ik => mkEv (snd ik) [N.of_nat (fst ik)] [] [] [] None [])
                      (combine (seq 0 (length kinds)) kinds) in
       let visited := rev_fast (for_each evs (fun acc e => enc e :: acc) []) in
       Some (SL (map (fun t => match t with [i] => SZ (Z.of_N i) | _ => SZ (-1) end) visited))
